@@ -1,6 +1,8 @@
 #!/usr/bin/env python3
 """writes /tmp/seedprompts/<ID>.txt : the brief for an independent sub-agent (property text only)"""
 import json, sys, os
+PREFIX = os.environ.get('SEED_PREFIX', '')
+EXTRA = os.environ.get('SEED_EXTRA', '')
 props = {json.loads(l)['id']: json.loads(l) for l in open('/verif/properties.jsonl')}
 T = '''You are helping to test a verification effort for the open-source Python project betcode-org/flumine (an event-driven sports-betting trading framework). You work ONLY inside the git worktree {wt} (a checkout of the project). Do not read or write anything under /verif or /repo. Python to use: /venv/bin/python. IMPORTANT: `flumine` is also installed from another directory; run pytest as `cd {wt} && /venv/bin/python -m pytest ...` (this imports the worktree copy), and make every standalone script you write start with `import sys; sys.path.insert(0, "{wt}")` and assert that `flumine.__file__` starts with "{wt}".
 
@@ -13,7 +15,7 @@ WHY THE EXISTING TESTS CANNOT SETTLE IT: {why}
 CODE THE PROPERTY IS ANCHORED IN: {files}
 MECHANISMS: {mech}
 
-YOUR TASK: produce TWO independent, realistic source changes to the package `flumine/` (each a small edit a developer could plausibly make: a refactor gone wrong, an "optimisation", a mis-merged condition, a dropped guard, a reordered statement, two cooperating edits that each look fine alone ...) such that, for EACH change separately:
+{extra}YOUR TASK: produce TWO independent, realistic source changes to the package `flumine/` (each a small edit a developer could plausibly make: a refactor gone wrong, an "optimisation", a mis-merged condition, a dropped guard, a reordered statement, two cooperating edits that each look fine alone ...) such that, for EACH change separately:
   1. the change BREAKS the property above (for some input / history / schedule / fault sequence the statement no longer holds);
   2. the package still imports/compiles and the existing test-suite still passes exactly as before: run `cd {wt} && /venv/bin/python -m pytest -q -p no:cacheprovider --timeout=900 2>&1 | tail -5` — the baseline is "5 failed, 976 passed" (the 5 failures are pre-existing network/json tests: test_event_processing, test_simulation_multi_clients, test_simulation_pro, test_get_file_event_id, test_get_file_event_id_tuple); with your change it must be the same 976 passed and the same 5 failed;
   3. you provide a DEMONSTRATION: a small standalone Python program (no network; use the real flumine classes, you may use unittest.mock only for the exchange/betting client or for market data objects) that exits with status 0 and prints "PROPERTY HOLDS" on the unchanged worktree, and exits with non-zero status printing "PROPERTY VIOLATED: <what>" when the change is applied.
@@ -30,8 +32,8 @@ In your final message, summarise the two changes in a few lines each. Do not com
 os.makedirs('/tmp/seedprompts', exist_ok=True)
 for pid in sys.argv[1:]:
     p = props[pid]
-    wt = '/tmp/wt/' + pid.lower()
-    open('/tmp/seedprompts/%s.txt' % pid, 'w').write(T.format(
+    wt = '/tmp/wt/' + PREFIX + pid.lower()
+    open('/tmp/seedprompts/%s%s.txt' % (PREFIX, pid), 'w').write(T.format(extra=EXTRA, 
         wt=wt, id=pid, title=p['title'], statement=p['statement'], qtext=p['quantifier']['text'],
         why=p['why_tests_cant'], files=', '.join(p['anchors']['files']),
         mech='; '.join('%s (%s)' % (m['name'], m['where']) for m in p['anchors']['mechanism'])))
